@@ -36,6 +36,9 @@ func (m *Mutex) Lock() {
 func (m *Mutex) Unlock() {
 	if s := simrt.InSim(); s != nil {
 		s.UnlockMutex(&m.core, false)
+		// a preemption point: whatever the caller does next (without the lock) may be overtaken
+		// by whoever gets the lock now
+		s.Yield("unlocked")
 		return
 	}
 	m.real.Unlock()
